@@ -169,6 +169,11 @@ def kinds(prog):
     return K, al
 
 
+_ATOM_MUTATORS = ('discard', 'remove', 'clear', 'pop', 'difference_update',
+                  'intersection_update', 'symmetric_difference_update',
+                  '__iand__', '__isub__', '__ixor__')
+
+
 class LTLHooks(TemplateHooks, GraphHooks):
     """formula terms with structural equality; atoms of the tableau are
     sets with a symbolic remainder"""
@@ -279,6 +284,24 @@ class LTLHooks(TemplateHooks, GraphHooks):
             return [(path, self.new_atom(I, path, h.fields['$state'],
                                          [p.val for p in m.parts],
                                          h.fields['$rest']))]
+        if name in ('update', '__ior__') and args:
+            # atom.update([f, g]) / atom |= {f, g}: every member is added
+            for a in args:
+                items = I.concrete_iter(a, path)
+                if items is None:
+                    raise Inconclusive('R-LTL-3', 'atom.%s(%r): members not '
+                                       'known' % (name, a),
+                                       I.where(node) if node is not None
+                                       else '')
+                for x in items:
+                    if not any(self.feq(p.val, x) is True for p in m.parts):
+                        m.parts.append(Part('elem', x))
+            return [(path, atom if name == '__ior__' else Const(None))]
+        if name in _ATOM_MUTATORS:
+            # a change of an atom the model of atoms cannot express: never
+            # dropped silently
+            raise Inconclusive('R-LTL-3', 'atom.%s(..) is not modelled' % name,
+                               I.where(node) if node is not None else '')
         return None
 
     def contains(self, I, container, item, path, node):
@@ -292,7 +315,9 @@ class LTLHooks(TemplateHooks, GraphHooks):
         return None
 
     def getattr(self, I, v, name, path, node):
-        if self.is_atom(v, path) and name in ('add', 'clone'):
+        if self.is_atom(v, path) and (name in ('add', 'clone', 'update',
+                                               '__ior__') or
+                                      name in _ATOM_MUTATORS):
             return BoundB(v, name)
         return TemplateHooks.getattr(self, I, v, name, path, node)
 
